@@ -1281,7 +1281,7 @@ pub fn run_c13(ctx: &Ctx) -> i32 {
 /// (`Residual::new`, `FixedLpc::new`, `Lpc::new`, `QuantizedParameters::new`, `Frame::new`) from a
 /// signal this function chooses; returns the case (audio = that signal) and the stream, or `None`
 /// when a residual does not fit the coded range (the draw is skipped, never judged).
-fn constructed_stream(rng: &mut Rng) -> Option<(Case, flacenc::component::Stream)> {
+pub fn constructed_stream(rng: &mut Rng) -> Option<(Case, flacenc::component::Stream)> {
     use flacenc::component::{ChannelAssignment, FixedLpc, Frame, FrameHeader, FrameOffset, Lpc, QuantizedParameters, Residual, Stream, SubFrame};
     let channels = *rng.pick(&[1usize, 1, 2, 3]);
     let bps = *rng.pick(&gen::WIDTHS);
@@ -1318,7 +1318,20 @@ fn constructed_stream(rng: &mut Rng) -> Option<(Case, flacenc::component::Stream
             let (coefs, shift, precision): (Vec<i64>, usize, usize) = if lpc {
                 let precision = rng.urange(2, 15) as usize;
                 let cl = 1i64 << (precision - 1);
-                let coefs: Vec<i64> = (0..order).map(|_| rng.range(-cl, cl - 1)).collect();
+                let mut coefs: Vec<i64> = (0..order).map(|_| rng.range(-cl, cl - 1)).collect();
+                // one predictor in four has taps that are exactly zero: the last ones (another
+                // encoder does not trim them; this library's own quantiser does, so its encoder
+                // never emits one), the first ones, every other one, or all of them
+                if rng.chance(1, 4) {
+                    let k = 1 + rng.usize_below(order);
+                    match rng.usize_below(4) {
+                        0 => coefs[order - k..].fill(0),
+                        1 => coefs[..k].fill(0),
+                        2 => coefs.iter_mut().step_by(2).for_each(|c| *c = 0),
+                        _ => coefs.fill(0),
+                    }
+                    desc.push_str(" zero-taps");
+                }
                 // keep the prediction gain bounded: sum |c| / 2^shift <= about 4
                 let sum: i64 = coefs.iter().map(|c| c.abs()).sum::<i64>().max(1);
                 let need = (64 - (sum as u64).leading_zeros() as usize).saturating_sub(2);
